@@ -5,6 +5,7 @@ import itertools
 import os
 import shutil
 import tempfile
+import time
 import warnings
 
 from .common import Oracle, Suite, errname, hx, merge
@@ -299,6 +300,24 @@ def semantic_cases(rng, rounds, tmp):
                             except Exception as ex:  # noqa: BLE001
                                 obs = errname(ex)
                             yield ("long-name-accepted", inp, obs == "accepted", obs, "accepted")
+    # an explicit-path save is a copy: it leaves the bound file's bookkeeping alone, so unsaved edits survive a following load_if_changed()
+    for cls, init, edit in ((apache.HtpasswdFile, b"u1:h1\n", lambda f: f.set_hash("u2", "h2")), (apache.HtdigestFile, b"u1:r1:h1\n", lambda f: f.set_hash("u2", "r1", "h2"))):
+        path, other = os.path.join(tmp, "bound_db"), os.path.join(tmp, "copy_db")
+        with open(path, "wb") as fh:
+            fh.write(init)
+        old = time.time() - 100
+        os.utime(path, (old, old))
+        f = cls(path)
+        edit(f)
+        want = f.to_string()
+        f.save(other)
+        changed = f.load_if_changed()
+        inp = {"op": "save-elsewhere", "class": cls.__name__, "initial": init.decode()}
+        yield ("save-elsewhere-keeps-unsaved-edits", inp, changed is False and f.to_string() == want and open(other, "rb").read() == want and open(path, "rb").read() == init,
+               {"load_if_changed": changed, "state": f.to_string().decode(), "bound_file": open(path, "rb").read().decode()}, {"load_if_changed": False, "state": want.decode(), "bound_file": init.decode()})
+        for pth in (path, other):
+            if os.path.exists(pth):
+                os.unlink(pth)
     # autosave: disk == export after every change, including the hash upgrade made by check_password
     cobj = CryptContext(["ldap_salted_sha1", "ldap_md5"], deprecated=["ldap_md5"])
     for _ in range(max(4, rounds // 10)):
